@@ -114,6 +114,8 @@ fn run_worker(page_pool: PagePool, command_rx: Receiver<IoPacket>) {
                     }
                 };
 
+                #[cfg(feature = "verif")]
+                let result = crate::verif::io::on_complete(&command, result);
                 let complete = CompleteIo { command, result };
                 let _ = completion_sender.send(complete);
             }
